@@ -11,7 +11,11 @@ use std::fs;
 use std::io::{Read, Write};
 use std::os::unix::ffi::OsStrExt;
 
-pub const REPORT_DIR: &str = "/verif/work/vr";
+/// reports go to /verif/work/vr/<session id>: a harness run is its own session, so concurrent runs
+/// (and their descendants, whatever argv/environment they were given) never share a directory
+fn report_dir() -> String {
+    format!("/verif/work/vr/{}", unsafe { libc::getsid(0) })
+}
 
 // Signal state must be sampled before the Rust runtime starts (it sets SIGPIPE to "ignore"):
 // an .init_array constructor runs before std's start-up code.
@@ -122,9 +126,9 @@ fn report() {
         pid, ppid, exe, argv.join(","), env.join(","), env_raw.join(","), cwd, ru, eu, su, rg, eg, sg, pgid,
         format!("{:016x}", unsafe { EARLY_BLK }), format!("{:016x}", unsafe { EARLY_IGN }), fds.join(",")
     );
-    let _ = fs::create_dir_all(REPORT_DIR);
-    let tmp = format!("{}/.{}.tmp", REPORT_DIR, pid);
-    let fin = format!("{}/{}.json", REPORT_DIR, pid);
+    let _ = fs::create_dir_all(report_dir());
+    let tmp = format!("{}/.{}.tmp", report_dir(), pid);
+    let fin = format!("{}/{}.json", report_dir(), pid);
     if fs::write(&tmp, js).is_ok() {
         let _ = fs::rename(&tmp, &fin);
     }
@@ -132,7 +136,7 @@ fn report() {
 
 fn note(kind: &str, val: &str) {
     // append an observation (e.g. what was received, when EOF was seen) to <pid>.log
-    let p = format!("{}/{}.log", REPORT_DIR, std::process::id());
+    let p = format!("{}/{}.log", report_dir(), std::process::id());
     if let Ok(mut f) = fs::OpenOptions::new().create(true).append(true).open(p) {
         let _ = writeln!(f, "{} {}", kind, val);
     }
